@@ -83,7 +83,7 @@ func genC20(g *Gen, tier string, idx int) *wire.Scenario {
 		if kind == "resize" {
 			d.W, d.H = env.W+7, env.H
 		}
-		sc.Plan = wire.Plan{Policy: "seeded", Class: "S1", Seed: g.Seed(), Disturb: []wire.Disturb{d}, Sites: g.siteSubset(35)}
+		sc.Plan = wire.Plan{Policy: "seeded", Class: "S0", Seed: g.Seed(), Disturb: []wire.Disturb{d}, Sites: g.siteSubset(35)}
 		sc.X = mustJSON(x)
 		return sc
 	}
@@ -92,7 +92,7 @@ func genC20(g *Gen, tier string, idx int) *wire.Scenario {
 	if g.P(20) {
 		nd = g.Range(4, 6)
 	}
-	plan := wire.Plan{Policy: "seeded", Class: "S1", Seed: g.Seed(), Sites: g.siteSubset(Pick(g, []int{10, 35, 70}))}
+	plan := wire.Plan{Policy: "seeded", Class: "S0", Seed: g.Seed(), Sites: g.siteSubset(Pick(g, []int{10, 35, 70}))}
 	supported := idx%4 == 0 // only the supported window: while main waits for input
 	for i := 0; i < nd; i++ {
 		d := wire.Disturb{Kind: Pick(g, c20Kinds), Task: "main", Site: Pick(g, c20MainSites), Nth: g.Range(1, len(sc.Script)+2)}
